@@ -17,7 +17,15 @@ def extractors():
 
 
 def run(repo, gendir, only=None):
-    problems = []
+    problems, allfiles = compute(repo, only)
+    for fn, content in allfiles.items():
+        write_if_changed(os.path.join(gendir, fn), content)
+    return problems
+
+
+def compute(repo, only=None):
+    """-> (problems, {filename: content}) without touching the disk"""
+    problems, allfiles = [], {}
     for name in extractors():
         if only and name not in only:
             continue
@@ -27,9 +35,18 @@ def run(repo, gendir, only=None):
         except Exception as e:
             problems.append('%s: %s: %s' % (name, type(e).__name__, e))
             files = {fn: '-- EXTRACTION FAILED: %s\n-- %s\n' % (name, str(e).replace('\n', ' ')) for fn in getattr(mod, 'FILES', [])}
-        for fn, content in files.items():
-            write_if_changed(os.path.join(gendir, fn), content)
-    return problems
+        allfiles.update(files)
+    return problems, allfiles
+
+
+def on_disk(gendir, files):
+    for fn, content in files.items():
+        try:
+            if open(os.path.join(gendir, fn), encoding='utf-8').read() != content:
+                return False
+        except OSError:
+            return False
+    return True
 
 
 if __name__ == '__main__':
